@@ -332,6 +332,80 @@ theorem search_exact_partial (hist : List TxResult) (hc : CleanHist H hist) (q :
       simp only [S, List.mem_map, List.mem_filter]
       exact ⟨r, ⟨hr, (hmatch r hr).mp hm c hcq⟩, hx⟩
 
+/-- **Range exactness** (partial).  For every clean history, every key `k` whose indexed values
+are canonical decimals within int64 (`CanonKey`) with at most one value per tx, and every
+two-sided window `k >(=) a AND k <(=) b` (either order of the two conditions, inclusive or
+exclusive bounds): `Search` returns exactly the hashes of the indexed txs whose events satisfy the
+query — whatever the numbers of digits of the values, i.e. although the scan walks the keys in
+lexicographic order of their decimal text (this is what a "stop at the first value above the upper
+bound" scan gets wrong).  `k` may be `tx.height`: height windows are covered.
+Missing for the full statement: several range keys in one query, ranges combined with other
+conditions, one-sided ranges (stream only); multi-valued attributes and two bounds of the same
+side are known findings (`range-conditions-merged-per-key`, witness `search_range_merge_fails`). -/
+theorem search_range_exact_partial (hist : List TxResult) (hc : CleanHist H hist)
+    (k : Str) (hk : sep ∉ k) (hkh : k ≠ txHashKey)
+    (a b : Nat) (incA incB : Bool) (ha : a ≤ maxInt64) (hb : b ≤ maxInt64)
+    (hax : incA = false → a < maxInt64)
+    (hcan : CanonKey hist k)
+    (hsingle : ∀ r ∈ hist, (valuesOf (attrsAll r) k).length ≤ 1)
+    (q : Query)
+    (hq : q = [loCond k a incA, hiCond k b incB] ∨ q = [hiCond k b incB, loCond k a incA]) :
+    ∃ hs, search (addBatch H [] hist) q = .hashes hs ∧
+      ∀ x, x ∈ hs ↔ ∃ r ∈ hist, H r.tx = x ∧ «matches» q (eventsOf r) = .ok true := by
+  let W := window k a incA b incB
+  have hrows := mem_rangeRows H hc W hk hcan
+  obtain ⟨hs0, ev, hmem⟩ := valHashes_all_hash (rangeRows (addBatch H [] hist) W) (by
+    intro row hrow
+    obtain ⟨rr, _, kv, _, _, _, rfl⟩ := (hrows row).mp hrow
+    exact ⟨_, rfl⟩)
+  have shape : conditionsOK q = true ∧ lookForHash q = none ∧ lookForRanges q = [W] ∧
+      lookForHeight q = none ∧ q.filter (fun c => !isRangeOp c.op) = [] := by
+    rcases hq with rfl | rfl
+    · refine ⟨?_, ?_, (lookForRanges_lo_hi k a incA b incB).1, ?_, ?_⟩ <;>
+        cases incA <;> cases incB <;>
+        simp [conditionsOK, lookForHash, lookForHeight, loCond, hiCond, isRangeOp, ha, hb, hkh]
+    · refine ⟨?_, ?_, (lookForRanges_lo_hi k a incA b incB).2, ?_, ?_⟩ <;>
+        cases incA <;> cases incB <;>
+        simp [conditionsOK, lookForHash, lookForHeight, loCond, hiCond, isRangeOp, ha, hb, hkh]
+  obtain ⟨h1, h2, h3, h4, h5⟩ := shape
+  obtain ⟨L, eL, mL⟩ := search_single_range (addBatch H [] hist) q W hs0 h1 h2 h3 h4 h5 ev
+  refine ⟨L, eL, ?_⟩
+  intro x
+  rw [mL, hmem]
+  have hmatch : ∀ r ∈ hist, («matches» q (eventsOf r) = .ok true ↔
+      ∃ m, (k, dec m) ∈ attrsAll r ∧ inR W m = true) := by
+    intro r hr
+    have hcanr : ∀ v ∈ valuesOf (attrsAll r) k, ∃ m, m ≤ maxInt64 ∧ v = dec m := by
+      intro v hv
+      exact hcan r hr (k, v) ((mem_valuesOf _ _ _).mp hv) rfl
+    have := matches_window k a incA b incB ha hb hax r hcanr (hsingle r hr)
+    rcases hq with rfl | rfl
+    · exact this.1
+    · exact this.2
+  constructor
+  · rintro ⟨row, hrow, hx⟩
+    obtain ⟨rr, hrr, kv, hkv, hk1, ⟨m, hv, hin⟩, rfl⟩ := (hrows row).mp hrow
+    simp only [secRow, Val.hash.injEq] at hx
+    refine ⟨rr, hrr, hx, (hmatch rr hrr).mpr ⟨m, ?_, hin⟩⟩
+    have : kv = (k, dec m) := Prod.ext hk1 hv
+    rw [← this]; exact hkv
+  · rintro ⟨r, hr, hx, hm⟩
+    obtain ⟨m, hkv, hin⟩ := (hmatch r hr).mp hm
+    exact ⟨secRow H r (k, dec m), (hrows _).mpr ⟨r, hr, (k, dec m), hkv, rfl, ⟨m, rfl, hin⟩, rfl⟩,
+      by simp [secRow, hx]⟩
+
+/-- the hypotheses of `search_range_exact_partial` are satisfiable, with values of 1, 2 and 3
+digits under the key: the window `5 <= a.n < 100` returns the txs carrying 5 and 25, not 105 —
+although `a.n/105/…` sorts before `a.n/25/…` and `a.n/5/…` in the index -/
+example :
+    let an : Str := [97, 46, 110]
+    let mk : Nat → Nat → Bytes → Str → TxResult := fun h i tx v =>
+      { height := h, index := i, tx := tx, events := [{ type := [97], attrs := [{ key := [110], value := v, index := true }] }] }
+    let hist : List TxResult := [mk 9 0 [1] [53], mk 10 0 [2] [49, 48, 53], mk 11 0 [3] [50, 53]]
+    CleanHist (fun x => x) hist ∧ (∀ r ∈ hist, (valuesOf (attrsAll r) an).length ≤ 1) ∧
+    search (addBatch (fun x => x) [] hist) [loCond an 5 true, hiCond an 100 false] = .hashes [[1], [3]] := by
+  refine ⟨by constructor <;> decide, by decide, by decide⟩
+
 /-- the hypotheses of `search_exact_partial` are satisfiable: a clean two-tx history and a
 four-condition query of the class (with a numeric equality on canonical values); the search
 really returns a hit -/
